@@ -512,6 +512,75 @@ def gen_batched(rng):
             "kgrid": 1.0 / 1024, "reuse": True, "nb": nb}
 
 
+def gen_batched_dims(rng):
+    """state matrices with two or more batch axes on which the number of shift components VARIES from step to step
+    (3 -> 1, 2 -> 3 -> 2, ... also un-batched vectors on the batched state, also after time accumulation C):
+    integer (shift-nd) and real-valued (shift-merge / shift-prune) tables, checked against one isochromat per batch
+    entry and against scalar re-runs of single batch entries"""
+    layout = rng.choice(["k0", "k1", "k2"])
+    typ = rng.choice(["int", "float"])
+    B = rng.choice([2, 3])
+    A = rng.choice([1, 2, 2])
+    alphas = [rng.choice([35.0, 70.0, 110.0]) for _ in range(A)]
+    scale = 1 if typ == "int" else rng.choice([0.5, 0.375])
+    kshape = {"k0": (B,), "k1": (1, B), "k2": (1, 1, B)}[layout]
+    al = np.array(alphas).reshape((1, A) if layout == "k0" else (A,))
+    nb = {"k0": 2, "k1": 2, "k2": 3}[layout]
+    n = rng.randint(2, 4)
+    dims = [rng.choice([1, 2, 3]) for _ in range(n)]
+    if len(set(dims)) == 1:
+        dims[0], dims[-1] = 3, rng.choice([1, 2])
+    where_c = rng.randrange(n) if rng.random() < 0.4 else None
+    ops = []
+    for i, d in enumerate(dims):
+        ops.append(("Tb", (al * rng.choice([1.0, 0.5, 1.5])).tolist(), rng.choice([0.0, 10.0, 75.0, 130.0])))
+        if rng.random() < 0.4:
+            ops.append(("E", 5.0, 1000.0, 80.0, rng.choice([0.0, 0.01])))
+        if i == where_c:
+            ops.append(("C", rng.choice([1.0, 2.0, 3.5])))
+            ops.append(("Tb", (al * 0.5).tolist(), rng.choice([0.0, 75.0])))
+        shp = () if (i and rng.random() < 0.35) else kshape
+        tab = batched_vectors(rng, shp, d, [0, 1, -1, 1, 2])
+        ops.append(("Sb", (tab * scale).tolist(), typ))
+    return {"fam": "batched-dims-%s-%s" % (typ, layout), "ops": ops, "kvalue": rng.choice([1.0, 2.5]), "tvalue": rng.choice([1.0, 2.0]),
+            "kgrid": 1.0 / 1024, "reuse": True, "nb": nb, "scalar_reruns": True}
+
+
+def scalar_program(p, idx):
+    """the un-batched program of batch entry idx (index into the full batch shape)"""
+    nb = p["nb"]
+    pick = lambda a: a[tuple(min(i, s - 1) for i, s in zip(idx, a.shape[:nb]))]
+    ops = []
+    for o in p["ops"]:
+        if o[0] == "Tb":
+            ops.append(("T", float(pick(align(o[1], nb))), o[2]))
+        elif o[0] == "Sb":
+            a = np.asarray(o[1], dtype=float)
+            a = a.reshape(a.shape[:-1] + (1,) * (nb - (a.ndim - 1)) + a.shape[-1:])
+            v = pick(a)
+            ops.append(("Snd", [int(x) for x in v]) if o[2] == "int" else ("Sfl", [float(x) for x in v]))
+        else:
+            ops.append(o)
+    q = dict(p, ops=ops, fam=p["fam"] + "-scalar")
+    q.pop("nb"); q.pop("scalar_reruns", None)
+    return q
+
+
+def scalar_rerun_case(rng, p, pos, freq):
+    sm, _ = run_seq(p)
+    mp, mz = synth(sm, pos, freq)
+    full = mp.shape[:-1]
+    for _ in range(2):
+        idx = tuple(rng.randrange(s) for s in full)
+        q = scalar_program(p, idx)
+        sq, _ = run_seq(q)
+        qp, qz = synth(sq, pos, freq)
+        e = max(np.abs(qp.reshape(-1, len(pos))[0] - mp[idx]).max(), np.abs(qz.reshape(-1, len(pos))[0] - mz[idx]).max())
+        if not e <= 1e-10:
+            return "batch entry %s of the batched run differs from its scalar re-run by %.3g" % (idx, e)
+    return None
+
+
 def gen_large(rng):
     """real-valued shifts / gradient tables of LARGE magnitude (1e3 .. 1e5 rad/m) with fractional parts from one grid
     unit up to 0.5 (also exactly integer-valued floats), as the first real-valued shift of a sequence (on a state
@@ -597,6 +666,72 @@ def gen_grid(rng):
             "reuse": True, "unit": u}
 
 
+def gen_upgrade(rng):
+    """the number of wavenumber axes grows in the middle of the sequence (1 -> 2 -> 3 -> time axis) AFTER non-integer
+    real-valued shifts have been stored: float S of increasing dimension, then G (3 axes), then C (time axis)"""
+    dims = sorted(rng.choice([1, 1, 2, 2, 3]) for _ in range(rng.randint(1, 3)))
+    tail = rng.choice([["G"], ["C"], ["G", "C"], ["S3"], ["S3", "C"], ["S4"], []])
+    if not tail and len(set(dims)) < 2:
+        tail = ["C"]
+    ops = [("T", rng.choice([45, 60, 90, 120]), rng.choice([0, 30, 90]))]
+
+    def rf():
+        ops.append(("T", rng.choice([20, 45, 60, 90, 120, 160]), rng.choice([0, 30, 90, 200])))
+        if rng.random() < 0.3:
+            ops.append(("E", rng.choice([2.0, 5.0]), 1000.0, 80.0, rng.choice([0.0, 0.01, -0.03])))
+
+    def fvec(d):
+        v = [rng.choice([0.0, 0.5, -1.25, 0.75, 0.25, 1.5, -0.75]) for _ in range(d)]
+        if not any(x % 1 for x in v):
+            v[rng.randrange(d)] = rng.choice([0.5, -1.25, 0.75])
+        return v
+    for d in dims:
+        ops.append((rng.choice(["Sfl", "Sfl", "Sflb"]), fvec(d))); rf()
+    for k in tail:
+        if k == "G":
+            g = [rng.choice([0.0, 2.0, -2.0, 4.0]) for _ in range(3)]
+            if not any(g):
+                g[2] = 2.0
+            ops.append(("G", rng.choice([0.5, 1.0]), g))
+        elif k == "C":
+            ops.append(("C", rng.choice([1.0, 2.0, 3.5])))
+        else:
+            ops.append(("Sfl", fvec(int(k[1]))))
+        rf()
+    return {"fam": "upgrade", "ops": ops, "kvalue": rng.choice([1.0, 1.0, 2.5, 0.25]), "tvalue": rng.choice([1.0, 2.0]),
+            "kgrid": KGRID, "reuse": True, "padded": True}
+
+
+def padded_equivalent(p):
+    """the same program where every real-valued shift already has the final number of axes (zero-padded)"""
+    import epgpy as epg
+    final = 1
+    for o in p["ops"]:
+        final = max(final, {"Sfl": len(o[1]) if o[0] == "Sfl" else 0, "Sflb": len(o[1]) if o[0] == "Sflb" else 0,
+                            "G": 3, "C": 4}.get(o[0], 0))
+    ops = []
+    for o in p["ops"]:
+        if o[0] in ("Sfl", "Sflb"):
+            ops.append((o[0], list(o[1]) + [0.0] * (final - len(o[1]))))
+        elif o[0] == "G":
+            k = [float(x) for x in np.ravel(epg.G(o[1], np.array(o[2], dtype=float)).k)]
+            ops.append(("Sfl", k + [0.0] * (final - 3)))
+        else:
+            ops.append(o)
+    return dict(p, ops=ops, fam=p["fam"] + "-padded", padded=False)
+
+
+def padded_case(p, pos, freq):
+    q = padded_equivalent(p)
+    (sa, _), (sb, _) = run_seq(p), run_seq(q)
+    first = lambda a: np.asarray(a).reshape(-1, len(pos))[0]
+    e1 = compare_contents(content_of(sa), content_of(sb))
+    e2 = np.abs(first(synth(sa, pos, freq)[0]) - first(synth(sb, pos, freq)[0])).max()
+    if not max(e1, e2) <= 1e-10:
+        return "run with growing number of wavenumber axes differs from the run whose shifts have the final number of axes from the start (content %.3g, signal %.3g)" % (e1, e2)
+    return None
+
+
 def int_equivalent(p):
     """the same program with integer n-D shifts in units of p['unit'] (kvalue = unit)"""
     ops = []
@@ -638,10 +773,15 @@ def content_of(sm, b=0):
     st = np.asarray(sm.states); st = st.reshape((-1,) + st.shape[-2:])[b]
     k = np.asarray(sm.k)
     k = k.reshape((-1,) + k.shape[-2:]); k = k[min(b, k.shape[0] - 1)]
+    t = sm.t
+    if np.isscalar(t):
+        t = np.zeros(k.shape[0])
+    else:
+        t = np.asarray(t, dtype=float); t = t.reshape((-1, t.shape[-1])); t = t[min(b, t.shape[0] - 1)]
     out = {}
     for i in range(st.shape[0]):
         if np.abs(st[i]).max() > 1e-13:
-            key = tuple(int(round(x * 1e6)) for x in k[i]) + (0,) * (3 - k.shape[1])
+            key = tuple(int(round(x * 1e6)) for x in k[i]) + (0,) * (3 - k.shape[1]) + (int(round(t[i] * 1e6)),)
             f, z = out.get(key, (0, 0))
             out[key] = (f + st[i, 0], z + st[i, 2])
     return out
@@ -804,17 +944,23 @@ def run(ctx):
     ctx.cov["correspondence_terms"] = len(terms)
 
     # (b) the oracle of the property (always run: supporting evidence and failing-input search)
-    n_or = 72 if quick else 1800
+    n_main = 72 if quick else 1800
+    n_up = n_main + (14 if quick else 300)       # then: dimension upgrades
+    n_or = n_up + (14 if quick else 300)         # then: varying shift dimension on several batch axes
     fams = {}
     oracle_failed = False
     for i in range(n_or):
-        p = gen_large(rng) if i % 4 == 3 else gen_grid(rng) if i % 4 == 1 else gen_batched(rng) if i % 3 == 2 else gen_seq(rng)
+        p = gen_batched_dims(rng) if i >= n_up else gen_upgrade(rng) if i >= n_main else gen_large(rng) if i % 4 == 3 else gen_grid(rng) if i % 4 == 1 else gen_batched(rng) if i % 3 == 2 else gen_seq(rng)
         fams[p["fam"]] = fams.get(p["fam"], 0) + 1
         pos, freq = positions(rng, p)
         try:
             why = oracle_case(ctx, p, pos, freq)
             if not why and "unit" in p:
                 why = equiv_case(p, pos, freq)
+            if not why and p.get("padded"):
+                why = padded_case(p, pos, freq)
+            if not why and p.get("scalar_reruns"):
+                why = scalar_rerun_case(rng, p, pos, freq)
         except Exception as e:
             ctx.report("valid sequence raises %s: %s" % (type(e).__name__, str(e)[:200]), {"seq": p}, found_input=True,
                        signature={"raises": type(e).__name__, "fam": p["fam"]})
